@@ -27,6 +27,21 @@ def updated_calls(fn: ast.AST) -> List[ast.Call]:
     return [c for c in calls(fn) if call_name(c) == "self.send" and c.args and isinstance(c.args[0], ast.Call) and call_name(c.args[0]) == "Updated"]
 
 
+def _is_idle_predicate(fn) -> bool:
+    """Does fn(stream table) equal 'no streams, or every stream idle' on the sample tables?"""
+    from ..pred import Rec
+
+    T, F = Rec(idle=True), Rec(idle=False)
+    for smp in ({}, {1: T}, {1: F}, {1: T, 3: F}, {1: F, 3: T}, {1: T, 3: T}, {1: F, 3: F}):
+        try:
+            got = fn(smp)
+        except Exception:
+            return False
+        if bool(got) is not all(x.fields["idle"] for x in smp.values()) or not isinstance(got, bool):
+            return False
+    return True
+
+
 def run(ctx: Ctx) -> None:
     repo = ctx.repo
     ctx.rule("C07.R1", "idle signalling: HTTP/1 announces busy (Updated(idle=False)) first thing in the request arm and idle after recycling; HTTP/2 announces busy after creating a stream and, after every removal of a stream (StreamClosed, RST_STREAM), announces the idleness recomputed AFTER the removal", floor=6)
@@ -103,7 +118,7 @@ def run(ctx: Ctx) -> None:
                 if isinstance(v, ast.Name):
                     defs_ = [s_ for s_ in walk_local(fn) if isinstance(s_, ast.Assign) and dotted(s_.targets[0]) == v.id]
                     vexpr = defs_[0].value if len(defs_) == 1 else v
-                same = norm(vexpr) in ("self.idle", ref)
+                same = norm(vexpr) in ("self.idle", ref) or _is_idle_predicate(lambda smp, e=vexpr: eval_expr(e, {"self.streams": smp, "self.idle": all(x.fields["idle"] for x in smp.values())}))
                 ctx.check("C07.R1", f"{M2}:H2Protocol.{name}", "announced idleness is the connection's idle predicate", same,
                           f"Updated(idle=...) is computed as `{norm(vexpr)}`, not as the connection's idle predicate `{ref}`: a connection whose remaining streams are all idle (closed WebSockets) is reported busy and never gets its keep-alive timer back", uc)
                 ctx.check("C07.R1", f"{M2}:H2Protocol.{name}", "announced idleness is recomputed after the removal", fresh and after, f"Updated(idle={norm(v)}) is computed from {p} {'before' if not after else 'after'} the stream is removed: the closing stream still counts as busy", uc)
@@ -239,11 +254,9 @@ def run(ctx: Ctx) -> None:
     ctx.check("C07.R7", "protocol.ws_stream:WSStream.idle", "idle iff state in {CLOSED, HTTPCLOSED}", ok, "an open WebSocket must keep the connection busy; a closed one must not", wi_)
     pi = repo.func(M2, "H2Protocol.idle")
     rets = [n for n in walk_local(pi) if isinstance(n, ast.Return)]
-    ok = len(rets) == 1 and norm(rets[0].value) in (
-        "len(self.streams) == 0 or all((stream.idle for stream in self.streams.values()))",
-        "all((stream.idle for stream in self.streams.values()))",
-        "not self.streams or all((stream.idle for stream in self.streams.values()))",
-    )
+    from ..pred import eval_function as _evf
+
+    ok = bool(rets) and _is_idle_predicate(lambda smp: _evf(pi, {"self.streams": smp}))
     ctx.check("C07.R7", f"{M2}:H2Protocol.idle", "no streams or all streams idle", ok, f"idle is {norm(rets[0].value) if rets else '?'}", pi)
 
     from ..core import Alias
